@@ -12,7 +12,7 @@ def games(rng, tier):
 
 
 def games_few(rng, tier):
-    yield from lib.gen_games(rng, N_GAMES[tier] // 4)
+    yield from lib.gen_games(rng, N_GAMES[tier] // 4, slow=False)
 
 
 def games_nonabs(rng, tier):
